@@ -230,6 +230,12 @@ def k_motion(run, case):
         d_thr = 0.0 if rng.random() < .1 else ext / n * 10.0**rng.uniform(-1, 1.5)
         degrees = bool(rng.random() < .5)
         a_thr = 0.0 if rng.random() < .1 else (rng.uniform(0, 200) if degrees else rng.uniform(0, 3.5))
+    if rng.random() < .2:
+        # whole-number thresholds the way they are typed in a script: Python ints (1 m, 45 degrees)
+        d_thr = int(round(d_thr)) if rng.random() < .8 else d_thr
+        a_thr = int(round(a_thr))
+        if isinstance(d_thr, int) and d_thr == 0 and a_thr == 0:
+            a_thr = 1
     stamped = bool(rng.random() < .7) or has_duplicate_poses(arr)
     tr, exp, mode = build(arr, rng, stamped)
     n = len(arr["p"])
